@@ -415,6 +415,12 @@ def ctc_stream(ctx):
         # three different constraints under one name (the name is a label, not a key)
         yield "same-name", dict(root=base, ctcs=[("rule", OP(o, T("Xa"), T("Yb"))), ("rule", OP(o, T("Yb"), T("yb"))),
                                                  ("rule", OP(o, T("yb"), T("Xa")))])
+    # numbered names past 9 (F1 is a prefix of F10), a decomposed name used in a constraint
+    for m in gen.big_models(cardinal=False):
+        if m["root"]["name"] == "Num":
+            yield "numbered", dict(root=m["root"], ctcs=m["ctcs"][:4])
+    base = spec.F("Shop", [spec.R(1, 3, [spec.F("Cafe\u0301"), spec.F("Tea"), spec.F("Juice")]), spec.R(0, 1, [spec.F("Terrace")])])
+    yield "decomposed-name", dict(root=base, ctcs=[("c0", OP("IMPLIES", T("Terrace"), T("Cafe\u0301"))), ("c1", OP("EXCLUDES", T("Tea"), T("Juice")))])
     trees = list(gen.all_ctc_trees(["A", "B", "C"], gen.LOGICAL, 2))
     step = max(1, len(trees) // (150 if ctx.tier == "quick" else 6000))
     for t in trees[ctx.gen.rng.randrange(step)::step]:
